@@ -6,6 +6,9 @@
 -/
 import Xc.Api
 import Xc.Prim.Cores
+import Xc.Prim.Des
+import Xc.Prim.Blowfish
+import Xc.Prim.Yescrypt
 
 namespace Xc
 
@@ -18,14 +21,14 @@ def D0 : Digests where
   sunmd5 := Cores.sunmd5Core
   sha1crypt := Cores.sha1cryptCore
   nt := Cores.ntCore
-  desHash := fun _ _ _ => zeros 8
-  bsdi := fun _ _ _ => zeros 8
-  bf := fun _ _ _ _ => zeros 23
+  desHash := Des.desHash
+  bsdi := Des.bsdiCore
+  bf := Bf.bcryptCore
   bfSelfTest := fun _ => true
-  yescrypt := fun P _ _ => if yesKdfParamsOk P then some (zeros 32) else none
+  yescrypt := fun P salt phrase => if yesKdfParamsOk P then some (Yes.kdf P salt phrase) else none
   gostOuter := fun _ _ _ => zeros 32
 
-def exactMethods : List Method := [.md5crypt, .sha256crypt, .sha512crypt, .sunmd5, .sha1crypt, .nt]
+def exactMethods : List Method := [.md5crypt, .sha256crypt, .sha512crypt, .sunmd5, .sha1crypt, .nt, .descrypt, .bigcrypt, .bsdicrypt, .bcrypt, .bcrypt_a, .bcrypt_x, .bcrypt_y, .yescrypt, .scrypt]
 
 /-- number of trailing characters of a successful result that depend on the digest -/
 def digestChars (m : Method) (H : Bytes) : Nat :=
